@@ -39,6 +39,9 @@ const (
 	streamOpened streamState = iota
 	streamClosed
 	streamHalfClosed
+	// streamLocalClosing: Close was called while a callback goroutine was in process, which will finish the close.
+	// Unlike streamHalfClosed (closed by the peer) the peer still has to be notified and OnLocalClose to be called.
+	streamLocalClosing
 )
 
 const (
@@ -277,7 +280,7 @@ func (s *Stream) Close() error {
 		atomic.StoreUint32(&s.callbackCloseState, uint32(callbackWaitExit))
 	}
 	if atomic.LoadUint32(&s.callbackInProcess) == 1 {
-		atomic.CompareAndSwapUint32(&s.state, uint32(streamOpened), uint32(streamHalfClosed))
+		atomic.CompareAndSwapUint32(&s.state, uint32(streamOpened), uint32(streamLocalClosing))
 		return nil
 	}
 
@@ -297,7 +300,7 @@ func (s *Stream) close() error {
 			s.asyncGoroutineWg.Wait()
 		}
 		s.clean()
-		if oldState == uint32(streamOpened) {
+		if oldState == uint32(streamOpened) || oldState == uint32(streamLocalClosing) {
 			s.safeCloseNotify()
 			callback := s.getCallbacks()
 			if callback != nil {
